@@ -142,6 +142,7 @@ def main():
                     disagreements.append({"what": "%s capture options %s" % (label, args), "model": mt[:100], "impl": it[:100], "capture": cap.hex(), "keylog": keylog, "args": args})
     if m:
         ck.cov["oracle_queries"] = m.queries
+        ck.cov["model_runs_skipped"] = m.skipped
         m.close()
     impl.cleanup()
     ck.cov["traces_validated_against_impl"] = hist["model_runs"]
